@@ -475,7 +475,7 @@ func main() {
 	r.Rule = "both directions of a pair (netctx.Conn / connctx over net.Pipe; netctx.PacketConn over loopback UDP and over vnet sockets) driven concurrently by writer and reader workers; every operation gets a context that is live, cancelled before the call, cancelled 0-400us into the call (incl. the watcher start window), or a timeout context; the operation right after a cancelled one is a live-context probe; oracle: stream bytes received == reported-written prefixes (also partial), datagrams received = in-order duplicate-free intact subsequence of those reported written and complete under pacing, nothing reported unwritten arrives, a live-context operation never fails with a timeout/context error (no leftover deadline), a cancelled operation is not found parked 250ms after cancellation; distinct = (kind, seed) cases"
 	r.Assumptions = []string{"loopback UDP and vnet do not lose datagrams while at most 8 are outstanding", "promptness is decided by inspecting the worker's goroutine state 250ms after its cancel instant, only when no operation completed for 300ms"}
 	kinds := []string{"netctx-pipe", "connctx-pipe", "netctx-udp", "netctx-vnet"}
-	n := 8
+	n := 20
 	ops := 400
 	if *tier == "thorough" {
 		n = 60
